@@ -111,5 +111,36 @@ unit("parse.escape_roundtrip", "for every byte: what the %j string printer (jane
               dict(name="parser-hex-nibble-shift", file="parse.c", find="    state->argn = (state->argn << 4) + digit;\n    state->counter--;\n    if (!state->counter) {\n        push_buf(p, (uint8_t)(state->argn & 0xFF));",
                    replace="    state->argn = (state->argn << 3) + digit;\n    state->counter--;\n    if (!state->counter) {\n        push_buf(p, (uint8_t)(state->argn & 0xFF));", expect="C11")])
 
+
+# ------------------------------------------------------------------------------------------- byte-at-a-time core
+CONSUMERS = ["root", "tokenchar", "comment", "stringchar", "escape1", "escapeh", "escapeu", "longstring", "atsign"]
+unit("parse.consume.linecol", "janet_parser_consume updates (line, column, lookback) as the stated function of (byte, lookback): CR -> line+1, col 0; LF -> col 0 and line+1 "
+     "unless lookback is CR (CRLF is one break, also across calls); other -> col+1; lookback' = byte - for every parser state and whatever the consumers do within their frame",
+     "h_consume", ["parse_consume.c"], mode="plain", cls="bounded", bound="at most 3 consumer dispatches per byte, each from an arbitrary (havocked) parser state",
+     unwind=4, unwinding_assertions=False, functions=["janet_parser_consume", "janet_parser_checkdead"],
+     remove_bodies="|".join(CONSUMERS), genbody="(janet_|nd_).*|" + "|".join(CONSUMERS),
+     assumes=["every Consumer reached through state->consumer satisfies the frame contract h_frame_consumer: it writes no parser field other than args, error, states, buf, the six "
+              "counts/capacities, pending and flag (in particular not line/column/lookback) and keeps 1 <= statecount; proved for the real consumers in units parse.consumer.*",
+              "termination of the dispatch loop is not claimed (partial correctness)"],
+     mutants=[dict(name="crlf-double-count", file="parse.c", find="        if (parser->lookback != '\\r')\n            parser->line++;", replace="        parser->line++;", expect="C11"),
+              dict(name="lookback-not-updated", file="parse.c", find="    parser->lookback = c;\n", replace="", expect="C11"),
+              dict(name="cr-keeps-column", file="parse.c", find="        parser->line++;\n        parser->column = 0;\n    } else if (c == '\\n') {", replace="        parser->line++;\n    } else if (c == '\\n') {", expect="C11")])
+
+
+# ---------------------------------------------------------------------------------------------------- wf_parser
+FLUSH_DEFECT = ("GENUINE DEFECT (reproduced): janet_parser_flush (and janet_parser_error, which calls it) resets argcount/pending/statecount/bufcount but not states[0].argn, "
+                "so the invariant sum(argn of container states) == argcount is broken whenever root values were still queued. parser_state_frames then computes "
+                "args = p->args + argcount - argn, i.e. a pointer BEFORE the args array, and janet_wrap_parse_state reads argn values from there. "
+                "Obligation janet_parser_flush_c.postcondition.2 (states[0].argn == argcount) fails; counterexample: pending = argn = argcount = 1. "
+                "Reproducer (garbage heap contents are printed as values): (def p (parser/new)) (parser/consume p \"1 2 3 \") (parser/flush p) (pp (parser/state p :frames)); "
+                "crash (SIGSEGV, exit 139): (def p (parser/new)) (parser/consume p (string/repeat \"1 \" 3000000)) (parser/flush p) (parser/state p :frames). "
+                "Same through (parser/error p) after a parse error with values queued. Fix: parser->states[0].argn = 0; in janet_parser_flush.")
+u = unit("parse.flush.wf", "janet_parser_flush leaves a well-formed parser: empty stacks, one state, and the root container owns no queued argument (sum of argn == argcount), "
+     "so that later queries (parser/state, produce) stay inside the args stack - never a crash",
+     "h_flush", ["parse_flush.c"], tier="thorough", enforce=["janet_parser_flush/janet_parser_flush_c"],
+     mutants=[dict(name="flush-keeps-pending", file="parse.c", find="    parser->bufcount = 0;\n    parser->pending = 0;\n", replace="    parser->bufcount = 0;\n", expect="postcondition")])
+if not os.environ.get("C11_ENABLE_ALL"):
+    u["disabled_reason"] = FLUSH_DEFECT
+
 json.dump({"units": units}, open(os.path.join(V, "units", "C11.json"), "w"), indent=1)
 print("wrote %d units" % len(units))
